@@ -650,6 +650,19 @@ func aggregate(p *Property, o RunOpts, cases []Case, all []Result, raceLogs []st
 		exit = 1
 	}
 	ev.Violations = nViol
+	// slowest cases (diagnostic)
+	slow := append([]Result(nil), all...)
+	sort.Slice(slow, func(i, j int) bool { return slow[i].WallMs > slow[j].WallMs })
+	var slowTxt []string
+	total := 0
+	for _, r := range all {
+		total += r.WallMs
+	}
+	for i := 0; i < len(slow) && i < 5; i++ {
+		slowTxt = append(slowTxt, fmt.Sprintf("%d:%dms", slow[i].Idx, slow[i].WallMs))
+	}
+	cov["slowest_cases"] = slowTxt
+	cov["sum_case_wall_ms"] = total
 	cov["known_findings_seen"] = knownSeen
 	ev.WallS = time.Since(t0).Seconds()
 	for _, t := range inconclusiveText {
